@@ -11,6 +11,7 @@ import Cnl2aspModel.Compiler.Signatures
 import Cnl2aspModel.Compiler.Naming
 import Cnl2aspModel.Compiler.Temporal
 import Cnl2aspModel.Compiler.Surface
+import Cnl2aspModel.Compiler.Scope
 
 open Lean Cnl2aspModel
 
@@ -232,6 +233,47 @@ def c09keys (j : Json) : Json :=
   Json.mkObj [("verb", Json.str (chars (verbKey (jstr j "word").toList prep (jbool j "tohave")))),
               ("concept", Json.str (chars (conceptKey (jstr j "word").toList)))]
 
+namespace C17
+open Scope
+
+def pairsOf (j : Json) (k : String) : List (String × List String) :=
+  match j.getObjVal? k with
+  | .ok (Json.arr a) => a.toList.filterMap fun x => match x with
+      | Json.arr #[Json.str n, Json.arr vs] => some (n, vs.toList.filterMap fun v => v.getStr?.toOption)
+      | _ => none
+  | _ => []
+
+def useOf : Json → Option Use
+  | Json.arr #[Json.str "concept", Json.str c] => some (.concept c)
+  | Json.arr #[Json.str "attribute", Json.str c, Json.str a] => some (.attribute c a)
+  | Json.arr #[Json.str "label", Json.str l] => some (.label l)
+  | Json.arr #[Json.str "temporal", Json.str c, Json.str v] => some (.temporalValue c v)
+  | Json.arr #[Json.str "member", Json.str c, Json.str v] => some (.member c v)
+  | Json.arr #[Json.str "cardinality", Json.bool b] => some (.secondCardinality b)
+  | _ => none
+
+def faultJson : Fault → Json
+  | .entityNotFound n => Json.arr #["entity", n]
+  | .attributeNotFound c a => Json.arr #["attribute", c, a]
+  | .labelNotFound l => Json.arr #["label", l]
+  | .valueOutOfRange v => Json.arr #["range", v]
+  | .valueNotInCollection c v => Json.arr #["member", c, v]
+  | .doubleCardinality => Json.arr #["cardinality"]
+
+def run (j : Json) : Json :=
+  let env : Env := ⟨pairsOf j "concepts", pairsOf j "ranges", pairsOf j "collections"⟩
+  let sents : List Sentence := match j.getObjVal? "sentences" with
+    | .ok (Json.arr a) => a.toList.map fun s =>
+        ⟨pairsOf s "declares", jstrs s "labels",
+         match s.getObjVal? "uses" with
+         | .ok (Json.arr us) => us.toList.filterMap useOf
+         | _ => []⟩
+    | _ => []
+  match check env 0 sents with
+  | none => Json.null
+  | some (k, f) => Json.mkObj [("index", Json.num k), ("fault", faultJson f)]
+end C17
+
 open LineCol in
 def linecol (j : Json) : Json :=
   let s := (jstr j "s").toList
@@ -256,6 +298,7 @@ def dispatch (op : String) (j : Json) : Json :=
   | "c07.namer" => Ops.c07namer j
   | "c05.run" => Ops.C05.run j
   | "c09.keys" => Ops.c09keys j
+  | "c17.check" => Ops.C17.run j
   | _ => Json.mkObj [("err", "bad-op")]
 
 partial def loop (h : IO.FS.Stream) (out : IO.FS.Stream) : IO Unit := do
